@@ -44,6 +44,10 @@ def format_message(e):
             assert "message" in e
             fmt = six.ensure_str(e['message'])
             args = e['args']
+            if isinstance(args, list):
+                # the positional args were a tuple when the event was
+                # logged; a flogfile (JSON) hands them back as a list
+                args = tuple(args)
         elif "message" in e:
             fmt = "%(message)s"
             assert isinstance(e['message'], (bytes, str))
